@@ -25,6 +25,14 @@ def run_case(case):
     pool.register(obj, 110, 0)
     ct = obj.trait("x")
     h = ct.handler
+    # Instance("Name") (forward-declared class): a first validation of an instance resolves the class and re-installs the
+    # fast tables; every recorded call below is therefore a LATER call, made after the resolution
+    for cls in sorted(name_classes(d)):
+        for nm in ["x"] + (["a%d" % i for i in range(len(alts))] if alts is not None else []):
+            try:
+                obj.trait(nm).validate(obj, nm, pool.classes[cls]())
+            except Exception:
+                pass
     # a fresh value for every call: an implementation that mutates its argument must not disturb the other paths,
     # and the mutation itself is an observation
     out = {"venc": pool.enc(pool.val(vj)), "mut": []}
@@ -56,6 +64,16 @@ def run_case(case):
     fv = getattr(h, "fast_validate", None) if h is not None else None
     out["fast"] = fv is not None
     return out
+
+
+def name_classes(d, acc=None):
+    acc = set() if acc is None else acc
+    if d[0] == "DInstance" and len(d) > 4 and d[4] == "name":
+        acc.add(d[1])
+    elif d[0] in ("DTuple", "DCompound", "DUnion"):
+        for a in d[1]:
+            name_classes(a, acc)
+    return acc
 
 
 def patch_adapt_default(d, dflt_outcome):
